@@ -25,11 +25,20 @@
 (*         Side(dest)       another method arrived (bookkeeping such as    *)
 (*           UserBatchUpdate after a remote UserGet): not constrained      *)
 (*         Done(ok)                                                        *)
-(* Clauses: the requested method reaches only the backend named by the     *)
-(* prefix, at most once; a prefix that names no configured remote never    *)
-(* reaches a remote (the code sends it to the local cluster, which will    *)
-(* not know the object); at a remote the caller's token is salted for that *)
-(* remote.  Refusing (no Call at all) is allowed.                          *)
+(* Two groups of clauses, judged separately:                               *)
+(*  ROUTING (CallRoute; beyond every listed property statement, judged as  *)
+(*    DRIFT only, by FedRouteTrace under checks/C20_route.py): the         *)
+(*    requested method reaches only the backend named by the prefix, at    *)
+(*    most once; a prefix that names no configured remote never reaches a  *)
+(*    remote (the code sends it to the local cluster, which will not know  *)
+(*    the object).                                                         *)
+(*  SALTING (SaltOK; this IS C19's statement - "the token's secret is      *)
+(*    first replaced by the hex HMAC-SHA1 of R ... appears nowhere in the  *)
+(*    forwarded request" - judged strictly, by FedRouteSaltTrace under     *)
+(*    checks/C19.py): whatever remote a request arrives at, the caller's   *)
+(*    own v2 token is there salted for that remote, its secret is not, and *)
+(*    neither is a form salted for another cluster.                        *)
+(* Refusing (no Call at all) is allowed.                                   *)
 (***************************************************************************)
 EXTENDS Integers, Sequences, FiniteSets
 
@@ -49,12 +58,15 @@ AllowedDests ==
 
 CInit(c) == cfg = c /\ ncalls = [d \in Dests |-> 0] /\ done = FALSE
 
-Call(dest, tok) ==
+CallRoute(dest) ==
     /\ dest \in AllowedDests
     /\ ncalls[dest] = 0
-    /\ dest # "local" => (tok.salted /\ ~tok.leak /\ ~tok.foreign)
     /\ ncalls' = [ncalls EXCEPT ![dest] = 1]
     /\ UNCHANGED <<cfg, done>>
+
+SaltOK(dest, tok) == dest # "local" => (tok.salted /\ ~tok.leak /\ ~tok.foreign)
+
+Call(dest, tok) == CallRoute(dest) /\ SaltOK(dest, tok)
 
 Side(dest) == dest \in Dests /\ UNCHANGED cvars
 
